@@ -36,8 +36,11 @@ THEOREMS = {
                               'parse_stream(stream of s) = parse_file(file-like) = parse_file(file containing enc s) = parse_files(base, suffix) = parse_string(s)',
     'C17_parse_entry_points_bibtexml': 'BibTeXML: for bytes that ElementTree reads as it reads the text (e.g. the declared, encoded document) parse_bytes = '
                                        'parse_stream = parse_file(file-like) = parse_file(path) = parse_string, whatever `encoding` is',
-    'C17_write_entry_points': 'BaseWriter: unicode_io -> to_bytes = enc(to_string) unconditionally; byte plug-ins -> to_string = dec(to_bytes); write_file leaves '
-                              'exactly to_bytes in the file after one open; a file-like object receives what write_stream writes; core errors are the same everywhere',
+    'C17_write_entry_points': 'BaseWriter: unicode_io -> to_bytes = enc(to_string) unconditionally; byte plug-ins -> to_string = dec(to_bytes) and write_file leaves '
+                              'exactly to_bytes after one open; a file-like object receives what write_stream writes; core errors are the same everywhere',
+    'C17_write_file_partial': 'unicode_io plug-ins: write_file leaves exactly to_bytes in the file after one text-mode open with the encoding, PROVIDED the document is '
+                              'not empty or the codec encodes "" as no bytes',
+    'C17_write_file_neg': 'witness that the proviso is needed: empty document + byte-order-mark codec: to_bytes is the mark, the file stays empty (finding C17-empty-document-bom)',
     'C17_write_entry_points_bibtexml': 'BibTeXML: to_bytes = enc(XML declaration naming the encoding ++ to_string ++ newline); write_file writes exactly that',
     'C17_suffix_eq_name': 'regenerated tables: every suffix entry is found from EVERY file name dir/stem.sfx, its class is reachable by a name or alias, and every '
                           'named class with a default_suffix is what that suffix selects',
@@ -64,8 +67,9 @@ TRUSTED = ['codecs (utf-8, utf-16, latin-1), TextIOWrapper, the file system, PyY
            'dispatch layer hands over; every result compared by the oracle comes from the unmodified classes',
            'failure worlds are built by patching the names `io`, `posixpath`, `kpsewhich`, `environ` inside pybtex.io (unittest.mock), never the global modules']
 ASSUMPTIONS = ['text-mode newline translation is the identity on the generated documents (no CR in them; POSIX)',
-               'a text-mode file holds str.encode of what was written to it; the one known exception is excluded from the write cases: the EMPTY document under '
-               'a BOM-writing codec (utf-16: "".encode gives the BOM, a text file that received no character stays empty)',
+               'a text-mode file holds str.encode of what was written to it, except that it stays empty when no character was written (modelled: textFile); '
+               'hence finding C17-empty-document-bom: EMPTY document under a BOM-writing codec (utf-16: "".encode gives the BOM): its witness cases are generated '
+               'only when the finding is listed in known_findings.json, skipped (bucket entrypoints:skip) otherwise',
                'a (format, encoding) pair is exercised only when the encoding can represent the document']
 SERIAL = False
 
@@ -147,10 +151,15 @@ def canon_db(db):
     return {'entries': entries, 'preamble': list(db.preamble_list)}
 
 
+def hx(b):
+    """bytes -> the wire format (lower-case hex)"""
+    return bytes(b).hex()
+
+
 def streamj(v):
     if isinstance(v, str):
         return {'kind': 'text', 'data': v}
-    return {'kind': 'binary', 'data': list(v)}
+    return {'kind': 'binary', 'data': hx(v)}
 
 
 def xml_decl(enc_name):
@@ -255,8 +264,8 @@ def _prepare(case):
             return {'skip': 'document contains CR'}
         if not representable(text, enc_name):
             return {'skip': 'encoding cannot represent the document'}
-    if side == 'write' and text == '' and ''.encode(enc_name) != b'':
-        return {'skip': 'empty document under a BOM codec'}
+    if side == 'write' and text == '' and ''.encode(enc_name) != b'' and u and not finding_listed(FINDING_BOM):
+        return {'skip': 'empty document under a BOM codec (finding %s not listed)' % FINDING_BOM}
     p['text'] = text
     if side == 'read' and case.get('source') == 'bib' and p['family'] == 'bibtex':
         src = bib_source(case).replace('\r\n', '\n').replace('\r', '\n')
@@ -273,21 +282,19 @@ def _fault_bytes(case, p):
 
 
 def _codec_pairs(strings, enc):
-    return [[s, list(s.encode(enc))] for s in strings]
+    return [[s, hx(s.encode(enc))] for s in strings]
 
 
 PLAIN_WORLD = {'isfile': [], 'locate': {'kind': 'none'}, 'fail': [], 'environ': []}
 
 
 def _reader_entries(p, sfx):
-    s, b = p['s'], p['b']
-    own = {'kind': 'text', 'data': s} if p['u'] else {'kind': 'binary', 'data': list(b)}
     return [
-        {'entry': 'parse_string', 's': s},
-        {'entry': 'parse_bytes', 'b': list(b)},
-        {'entry': 'parse_stream', 'stream': own},
+        {'entry': 'parse_string'},
+        {'entry': 'parse_bytes'},
+        {'entry': 'parse_stream'},
         {'entry': 'parse_file_path', 'path': 'F' + sfx},
-        {'entry': 'parse_file_stream', 'stream': own},
+        {'entry': 'parse_file_stream'},
         {'entry': 'parse_files', 'bases': ['F'], 'suffix': sfx},
     ]
 
@@ -304,19 +311,19 @@ def req_entrypoints(case):
     world = case.get('world')
     if case['side'] == 'read':
         sfx = (suffixes_of(IN, p['cls']) or ['.dat'])[0]
-        files = [['F' + sfx, list(p['b'])]]
+        files = [['F' + sfx, hx(p['b'])]]
         if world is None:
             world = dict(PLAIN_WORLD, isfile=['F' + sfx])
             entries = _reader_entries(p, sfx)
         else:
             entries = [{'entry': 'parse_file_path', 'path': case['path']}]
-            files = [[f, list(_fault_bytes(case, p))] for f in case['files']]
+            files = [[f, hx(_fault_bytes(case, p))] for f in case['files']]
             # the in-memory file system of the implementation side has no other file
             tried = [case['path']] + ([world['locate']['path']] if world['locate']['kind'] == 'found' and world['locate']['path'] else [])
             missing = [[q, 'No such file or directory'] for q in tried if q not in case['files'] and q not in dict(map(tuple, world['fail']))]
             world = dict(world, fail=world['fail'] + missing)
         return {'op': 'entrypoints', 'side': 'read', 'u': p['u'], 'ov': p['ov'], 'enc': enc, 'codec': _codec_pairs([p['s']], enc),
-                'utf8': [], 'files': files, 'world': world, 'entries': entries}
+                'utf8': [], 'files': files, 'world': world, 'entries': entries, 's': p['s'], 'b': hx(p['b'])}
     text = p['text']
     core_text = text + '\n' if p['family'] == 'bibtexml' else text
     strings = [text, xml_decl(enc) + core_text] if p['family'] == 'bibtexml' else [text]
@@ -459,16 +466,16 @@ def impl_write(case, p):
     tmp = tempfile.mkdtemp(prefix='verif-c17-')
     try:
         out['to_string'] = _write_entry(lambda: db.to_string(fmt, **kw), lambda r: r)
-        out['to_bytes'] = _write_entry(lambda: db.to_bytes(fmt, **kw), lambda r: list(r))
+        out['to_bytes'] = _write_entry(lambda: db.to_bytes(fmt, **kw), hx)
         out['Writer.to_string'] = _write_entry(lambda: cls(**kw).to_string(db), lambda r: r)
-        out['Writer.to_bytes'] = _write_entry(lambda: cls(**kw).to_bytes(db), lambda r: list(r))
+        out['Writer.to_bytes'] = _write_entry(lambda: cls(**kw).to_bytes(db), hx)
         named = os.path.join(tmp, 'named.out')
-        out['to_file(path,name)'] = _write_entry(lambda: db.to_file(named, fmt, **kw), lambda r: list(_read_bytes(named)))
+        out['to_file(path,name)'] = _write_entry(lambda: db.to_file(named, fmt, **kw), lambda r: hx(_read_bytes(named)))
         for sfx in sfxs:
             path = os.path.join(tmp, 'F' + sfx)
-            out['to_file(path%s)' % sfx] = _write_entry(lambda: db.to_file(path, **kw), lambda r: list(_read_bytes(path)))
+            out['to_file(path%s)' % sfx] = _write_entry(lambda: db.to_file(path, **kw), lambda r: hx(_read_bytes(path)))
         wf = os.path.join(tmp, 'wf.out')
-        out['Writer.write_file'] = _write_entry(lambda: cls(**kw).write_file(db, wf), lambda r: list(_read_bytes(wf)))
+        out['Writer.write_file'] = _write_entry(lambda: cls(**kw).write_file(db, wf), lambda r: hx(_read_bytes(wf)))
         # a file-like object of the kind the class asks for: the call returns its getvalue()
         mem = _io.StringIO() if p['u'] else _io.BytesIO()
         out['to_file(memory stream,name)'] = _write_entry(lambda: db.to_file(mem, fmt, **kw), streamj)
@@ -482,10 +489,10 @@ def impl_write(case, p):
             finally:
                 f.close()
             return _read_bytes(fo_path)
-        out['to_file(file object by its name)'] = _write_entry(to_file_object, lambda r: list(r))
+        out['to_file(file object by its name)'] = _write_entry(to_file_object, hx)
     finally:
         shutil.rmtree(tmp, ignore_errors=True)
-    return {'results': out}
+    return {'results': out, 'meta': {'family': p['family'], 'enc': p['enc_name'], 'u': p['u']}}
 
 
 # ---- fault worlds through the public entry points --------------------------------------------------
@@ -602,10 +609,10 @@ def impl_fault(case, p):
     with W:
         try:
             p['db'].to_file(case['path'], fmt, **kw)
-            res = {'ok': {k: list(v) for k, v in W.fs.items()}}
+            res = {'ok': {k: hx(v) for k, v in W.fs.items()}}
         except Exception as e:  # noqa
             res = _open_error(e)
-    want = _write_entry(lambda: p['db'].to_bytes(fmt, **kw), lambda r: list(r))
+    want = _write_entry(lambda: p['db'].to_bytes(fmt, **kw), hx)
     return {'events': W.events, 'result': res, 'reference': want}
 
 
@@ -691,7 +698,6 @@ def impl_openmatrix(case):
     import pybtex.io as pio
     W = World(case['world'], {})
     # every path can be opened for reading unless it is listed as failing
-    W.open_missing_ok = True
     real_open = W.open
 
     def open_any(path, mode='r', **kw):
@@ -836,8 +842,9 @@ def oracle(case, io, reply):
                 break
             want = spec[i] if i < len(spec) else None
             if o['o'] != 'enum' and want is not None and a != want:
-                fails.append('runtime_plugins: step %d %s gives %s, the one-table reference gives %s (history %s)' % (
-                    i, _short(o), _short(a), _short(want), _short([_op_short(x) for x in case['ops'][:i]], 400)))
+                clause = 'suffix_eq_name' if o['o'] == 'find' and o.get('filename') and not (o.get('name') or {}).get('v') else 'runtime_plugins'
+                fails.append('%s: step %d %s gives %s, the one-table reference gives %s (history %s)' % (
+                    clause, i, _short(o), _short(a), _short(want), _short([_op_short(x) for x in case['ops'][:i]], 400)))
                 break
         return fails
     if op == 'openmatrix':
@@ -905,7 +912,6 @@ def oracle(case, io, reply):
             fails.append('entry_points_agree: %s raised %s (format %s, encoding %s)' % (k, v['err'], case['fmt'], case['enc']))
     if fails:
         return fails
-    p = prepare(case)
     if case['side'] == 'read':
         ref = res['parse_string']
         for k, v in res.items():
@@ -915,30 +921,59 @@ def oracle(case, io, reply):
                     cl, k, case['fmt'], case['enc'], _short(v), _short(ref)))
                 break
         return fails
-    text, enc = res['to_string'], p['enc_name']
+    meta = io['meta']
+    text, enc = res['to_string'], meta['enc']
     if not isinstance(text, str):
-        return fails                                  # a pybtex error from the writer: same error everywhere is checked below
-    doc = xml_decl(enc) + text + '\n' if p['family'] == 'bibtexml' else text
-    want = list(doc.encode(enc))
+        return fails                                  # a pybtex error from the writer
+    doc = xml_decl(enc) + text + '\n' if meta['family'] == 'bibtexml' else text
+    want = hx(doc.encode(enc))
     if res['to_bytes'] != want:
         fails.append('write_entry_points: to_bytes is not the to_string document%s encoded in %s (format %s): got %s want %s' % (
-            ' with its XML declaration' if p['family'] == 'bibtexml' else '', enc, case['fmt'], _short(bytes(res['to_bytes'][:60]).decode('latin-1')),
-            _short(bytes(want[:60]).decode('latin-1'))))
+            ' with its XML declaration' if meta['family'] == 'bibtexml' else '', enc, case['fmt'], _short(_peek(res['to_bytes'])), _short(_peek(want))))
         return fails
+    bom_corner = meta['u'] and text == '' and want != ''
     for k, v in res.items():
         if k in ('to_string', 'Writer.to_string'):
             if v != text:
                 fails.append('write_entry_points: %s differs from to_string' % k)
         elif k == 'to_file(memory stream,name)':
-            wantv = streamj(text if p['u'] else bytes(want))
+            wantv = streamj(text if meta['u'] else bytes.fromhex(want))
             if v != wantv:
                 fails.append('write_entry_points: a file-like object received %s, expected %s' % (_short(v), _short(wantv)))
         elif v != want:
             cl = 'suffix_eq_name' if k.startswith('to_file(path.') or 'by its name' in k else 'write_entry_points'
-            fails.append('%s: %s wrote bytes that differ from to_bytes (format %s, encoding %s): %s' % (
-                cl, k, case['fmt'], enc, _short(bytes(v[:60]).decode('latin-1') if isinstance(v, list) else v)))
+            fails.append('%s: %s wrote bytes that differ from to_bytes (format %s, encoding %s)%s: %s' % (
+                cl, k, case['fmt'], enc, BOM_TAG if bom_corner else '', _short(_peek(v))))
             break
     return fails
+
+
+BOM_TAG = ' [empty document under a BOM codec]'
+FINDING_BOM = 'C17-empty-document-bom'
+KNOWN_MATCHERS = {
+    FINDING_BOM: lambda case, io, f: BOM_TAG in f and case.get('op') == 'entrypoints' and case.get('side') == 'write',
+}
+
+
+@functools.lru_cache(maxsize=None)
+def finding_listed(fid):
+    """Is the finding recorded in known_findings.json?  (Read only; the witness is generated only then, because an
+    unlisted oracle failure is a VIOLATION.)"""
+    try:
+        with open(os.path.join(compat.VERIF, 'known_findings.json')) as f:
+            return any(k.get('property') == ID and k.get('id') == fid for k in json.load(f).get('findings', []))
+    except Exception:  # noqa
+        return False
+
+
+def _peek(h):
+    """first bytes of a hex string, readable"""
+    if not isinstance(h, str):
+        return h
+    try:
+        return bytes.fromhex(h[:120]).decode('latin-1')
+    except ValueError:
+        return h[:120]
 
 
 def _op_short(o):
@@ -1193,7 +1228,7 @@ def gen_entrypoints(tier, rng, info):
                         w = {'isfile': [], 'locate': {'kind': 'none'}, 'fail': fail, 'environ': [['TEXMFOUTPUT', tex]] if tex else []}
                         cases.append(dict(wr, world=w, path='o.dat', files=[]))
                         n_fault += 1
-    n_rand = 150 if tier == 'quick' else 2500
+    n_rand = 150 if tier == 'quick' else 1500
     for i in range(n_rand):
         doc = bibgen.gen_doc(rng, max_cmds=4)
         l1 = rng.random() < 0.4
